@@ -357,7 +357,7 @@ Proof.
   - destruct (wedged S c1) eqn:Ew; simpl.
     + repeat split; simpl; auto; congruence.
     + destruct (as_crew_op S decode_src msg) as [| |op]; simpl; auto.
-      * repeat split; simpl; auto.
+      * repeat split; simpl; auto; congruence.
       * destruct (op_ordinary S op); simpl; auto.
         split; [|auto]. apply core_do_op. split; auto. congruence.
   - destruct (String.eqb m timers_id); simpl.
